@@ -457,6 +457,12 @@ func cmdRun(prop, tier string) int {
 	}
 	nViol := 0
 	os.MkdirAll(filepath.Join(verifDir, "replays"), 0755)
+	// stale replay files of this property (not referenced by a known finding) are removed
+	if old, _ := filepath.Glob(filepath.Join(verifDir, "replays", prop+"-*.json")); len(old) > 0 {
+		for _, o := range old {
+			os.Remove(o)
+		}
+	}
 	for _, k := range keys {
 		if _, ok := known[k]; ok {
 			continue
